@@ -993,6 +993,50 @@ func runC01Server(c *Ctx) {
 				}
 			}
 		}
+		// the same two facts by proof, for a clamp that is not written as `if len > max`: every slice getDataSlice
+		// returns is no longer than one of its uint32 parameters (that parameter is then the clamp) and than p.Len
+		provedLen := map[ssa.Instruction]bool{}
+		if !clamp {
+			z := newZWorld(p).get(g)
+			for _, prm := range g.Params {
+				if !isBasicKind(types.Uint32)(prm.Type()) {
+					continue
+				}
+				all, nret := true, 0
+				eachInstr(g, func(in ssa.Instruction) {
+					r, ok := in.(*ssa.Return)
+					if !ok || !isReturn(in) || len(r.Results) != 1 {
+						return
+					}
+					nret++
+					L := z.lenOf(r.Results[0], 0)
+					ok1, _ := z.prove(in, []lin{leq(L, z.term(prm), 0)})
+					var lenT *lin
+					eachInstr(g, func(x ssa.Instruction) {
+						if u, isU := x.(*ssa.UnOp); isU && u.Op == token.MUL {
+							if _, n, _, okF := fieldOf(u.X); okF && n == "Len" {
+								t := z.term(u)
+								lenT = &t
+							}
+						}
+					})
+					ok2 := false
+					if lenT != nil {
+						ok2, _ = z.prove(in, []lin{leq(L, *lenT, 0)})
+					}
+					if ok1 && ok2 {
+						provedLen[in] = true
+					} else {
+						all = false
+					}
+				})
+				if all && nret > 0 {
+					clamp, clampPrm = true, prm
+					break
+				}
+				provedLen = map[ssa.Instruction]bool{}
+			}
+		}
 		if clampPrm != nil {
 			nOrig := 0
 			seenOrigin := map[string]bool{}
@@ -1046,7 +1090,7 @@ func runC01Server(c *Ctx) {
 					usesPhi = true
 				}
 			}
-			c.check(usesPhi, "R4", "getDataSlice result length", pos(in), "length is the clamped value", "a returned slice is not sized by the clamped length")
+			c.check(usesPhi || provedLen[in], "R4", "getDataSlice result length", pos(in), "length is the clamped value", "a returned slice is not sized by the clamped length")
 		})
 	}
 	// R5 WRITE decode keeps Data = b[:Length]
